@@ -155,8 +155,9 @@ def r55(F):
 
 def r56(F):
     r = RuleResult("R56", "integers stay integers",
-                   "json/yaml: the as_i64 test precedes the float fallback and its Some edge builds Val::Int; toml: Integer -> Int",
-                   floor=5)
+                   "json/yaml: the as_i64 test precedes the float fallback and its Some edge builds Val::Int, and no Int payload "
+                   "comes out of a cast from a type whose range i64 does not contain (u64 as i64 wraps); toml: Integer -> Int",
+                   floor=7)
     for conv, fname in (("json", "ucglib::convert::json::JsonConverter::convert_json_val"),
                         ("yaml", "ucglib::convert::yaml::YamlConverter::convert_yaml_val")):
         fn = F.fn(fname)
@@ -164,6 +165,7 @@ def r56(F):
         fns = [fn] + [F.fn(callee(t)) for b, t in fn.calls() if callee(t).startswith("ucglib::convert::") and callee(t) in F.fns
                       and callee(t) != fname and "convert_" not in callee(t).split("::")[-1]]
         ints = []
+        wraps = []
         for f2 in fns:
             o2 = Origins(f2)
             for b2, j, pl, rv, m in f2.assigns():
@@ -171,6 +173,14 @@ def r56(F):
                     labs = o2.at(rv["ops"][0], b2)
                     via_float = any(l[0] == "cast" and "Float" in str(l[1]) for l in labs) or any(c.endswith("as_f64") for c in calls_in(labs)) \
                         or any(l[0] == "cast" and len(l) > 2 and str(l[2]).startswith("f") for l in labs)
+                    # a cast from an integer type whose range i64 does not contain wraps (u64 2^63..2^64-1 -> negative)
+                    wrap = sorted({"%s as %s" % (l[2], l[3]) for l in labs if l[0] == "cast" and l[1] == "IntToInt" and len(l) > 3
+                                   and str(l[2]) in ("u64", "usize", "u128", "i128")})
+                    if wrap:
+                        guarded = any(rv3["k"] == "bin" and rv3["op"] in ("Gt", "Lt", "Ge", "Le") and str(rv3.get("ty")) in ("u64", "usize", "u128", "i128")
+                                      for b3, j3, pl3, rv3, m3 in f2.assigns()) or any("try_from" in callee(t3) or "try_into" in callee(t3) for b3, t3 in f2.calls())
+                        need(not guarded, "%s: an unsigned view is cast to i64 under a range test this rule does not evaluate" % f2.name)
+                        wraps.append((f2, b2, wrap))
                     ints.append((f2, b2, via_float))
         if not ints:
             # `as_i64().map_or_else(|| Val::Float(..), Val::Int)`: the constructor is handed to a combinator as a function item
@@ -183,6 +193,10 @@ def r56(F):
                "the Int payload comes from the number's integer view, never through a float" if not bad else
                "an imported integer is produced from the number's f64 view (float -> int cast): integers above 2^53 change value "
                "(9007199254740993 -> 9007199254740992)")
+        r.inst("%s:int-lossless" % conv, (wraps[0][0].where(wraps[0][1]) if wraps else ints[0][0].where(ints[0][1])), not wraps,
+               "no Int payload passes through a cast from an integer type wider than i64's range" if not wraps else
+               "an imported integer is produced by `%s`: a number that only has an unsigned view (2^63..2^64-1) wraps to a negative "
+               "integer instead of being imported as a float (18446744073709551615 -> -1)" % wraps[0][2][0])
         ai = [(b, t) for b, t in fn.calls() if callee(t).endswith("Number::as_i64")]
         if not ai:
             if not bad:
